@@ -117,6 +117,21 @@ func bgAnalyseFn(c *Ctx, fn *ssa.Function, name string) *bgInfo {
 		for _, a := range f.AnonFuncs {
 			add(a)
 		}
+		// function literals of fn bound to local names that the goroutine calls or defers (workerDone := func(){…};
+		// defer workerDone()), and unexported in-package helpers it delegates to (m.forward(i))
+		instrs(f, func(b *ssa.BasicBlock, i int, in ssa.Instruction) {
+			cc := callCommon(in)
+			if cc == nil {
+				return
+			}
+			cal := staticCallee(cc)
+			if cal == nil || cal.Blocks == nil {
+				return
+			}
+			if cal.Parent() == fn || (rootFn(cal).Pkg == rootFn(fn).Pkg && cal.Parent() == nil && !token.IsExported(cal.Name()) && len(seen) < 12) {
+				add(cal)
+			}
+		})
 	}
 	for _, f := range bi.spawned {
 		add(f)
